@@ -91,7 +91,7 @@ def rule_lay(run):
 # ---------------------------------------------------------------------------
 # FIT: string-length domain
 
-EQ, GE, GT, UNK = 'len==w', 'len>=w', 'len>w', '?'
+EQ, GE, GT, LE, UNK = 'len==w', 'len>=w', 'len>w', 'len<=w', '?'
 
 
 class _Fit(flow.Analysis):
@@ -186,9 +186,9 @@ class _Fit(flow.Analysis):
             return frozenset(dd.items())
         # refine
         if op is ast.Gt:      # len > w | len <= w
-            return upd(GT), upd(EQ if cur in (GE, EQ) else UNK)
+            return upd(GT), upd(EQ if cur in (GE, EQ) else LE)
         if op is ast.LtE:
-            return upd(EQ if cur in (GE, EQ) else UNK), upd(GT)
+            return upd(EQ if cur in (GE, EQ) else LE), upd(GT)
         if op is ast.Eq:
             return upd(EQ), upd(GT if cur in (GE, GT) else UNK)
         if op is ast.NotEq:
@@ -211,6 +211,7 @@ class _Fit(flow.Analysis):
             elif set((va, vb)) <= set((EQ, GE, GT)) and GT not in (va, vb): out[k] = GE
             elif set((va, vb)) <= set((GE, GT)): out[k] = GE
             elif set((va, vb)) == set((EQ, GT)): out[k] = GE
+            elif set((va, vb)) == set((EQ, LE)): out[k] = LE
             else: out[k] = UNK
         return frozenset(out.items())
 
@@ -247,7 +248,7 @@ def analyse_helper(prog, finfo, width_param, depth=0):
     if out.fall is not None:
         return UNK, 'a path falls off the end of %s (returns None)' % finfo.short
     worst = EQ
-    order = {EQ: 0, GE: 1, GT: 2, UNK: 3}
+    order = {EQ: 0, GE: 1, GT: 2, LE: 2, UNK: 3}
     for node, st in out.rets:
         if node.value is None:
             return UNK, 'bare return in %s line %d' % (finfo.short, node.lineno)
@@ -324,7 +325,7 @@ def rule_fit(run):
     flow.run(an, fi.node.body, frozenset())
     # the fixpoint loop visits appends repeatedly: keep the weakest status per site
     sites = {}
-    order = {EQ: 0, GE: 1, GT: 2, UNK: 3}
+    order = {EQ: 0, GE: 1, GT: 2, LE: 2, UNK: 3}
     for c, stt in an.appends:
         k = (c.lineno, c.col_offset)
         if k not in sites or order[stt] > order[sites[k][1]]:
@@ -340,6 +341,10 @@ def rule_fit(run):
                          "wider than W whenever the value needs more columns (e.g. a negative number in "
                          "a 10.4e field), and no length test dominates the append, so every later field "
                          "of the record is shifted" % stt, where=fi.where(c))
+        elif stt == LE:
+            run.violated(key, "the string that reaches the record is only known to be at most W wide (%s): its format has no "
+                         "minimum width and the only length test is an upper bound, so a value that renders shorter leaves the "
+                         "record short and every later field is shifted left" % '; '.join(helper_notes), where=fi.where(c))
         else:
             run.unknown(key, 'length of appended string not resolved (%s)' % '; '.join(helper_notes),
                         where=fi.where(c))
@@ -378,7 +383,15 @@ def rule_lattice(run):
                                    'classes_that_do_not_fit': overflow, 'fields': len(users)})
 
 
+def rule_shared(run):
+    run.rule('SHARED', 'the column tables a fixed_format_file object parses with belong to that object: no mutable container bound '
+             'in a class body is filled through self without being rebound per instance', floor=1)
+    from .shared import shared_rule
+    shared_rule(run, ['fixed_format_file', 't2data', 't2incons', 'mulgrids'])
+
+
 def check(run):
+    run.guarded('SHARED', rule_shared)
     run.guarded('LAY', rule_lay)
     run.guarded('FIT', rule_fit)
     run.guarded('LATTICE', rule_lattice)
